@@ -329,6 +329,11 @@ func (g *Generator) generateOneofUnmarshalVariants(
 		// Scalar variants in non-flattened mode: protojson handles them
 	}
 
+	// An empty discriminator means "no variant set"; any other value that names no variant is an error
+	gf.P(`case "":`)
+	gf.P("default:")
+	gf.P(`return fmt.Errorf("unknown value %q for discriminator %q", disc, "`, info.Discriminator, `")`)
+
 	gf.P("}")
 	gf.P("}")
 	gf.P()
